@@ -128,12 +128,15 @@ class Env(object):
         self.cur["names"], self.cur["combos"] = variations_of(cfg)
 
 
-def stop_model(cfg, v, rep, sumv, ratio_vt):
+def stop_model(cfg, v, rep, sumv, ratio_vt, nskip=0):
     """keep_going decision (True = continue) as a pure function."""
     st = cfg["stop"]
     k = st["kind"]
     if k == "always":
         return True
+    if k == "skipped":
+        # 'give up after thr skipped attempts' (reads num_skipped_reps)
+        return (nskip or 0) < st["thr"]
     if k == "rep":
         thr = st["thr"]
         return rep < thr[v % len(thr)]
@@ -160,6 +163,8 @@ def make_runner(env, cfg=None):
             self.rep_max = cfg["rep_max"]
             self.update_progress_function_style = None
             for name, value in cfg["fixed"]:
+                if isinstance(value, list):
+                    value = tuple(value)      # e.g. antennas=(2, 4)
                 self.params.add(name, value)
             for name, values in cfg["unpacked"]:
                 kind = cfg.get("container", {}).get(name, "list")
@@ -190,6 +195,14 @@ def make_runner(env, cfg=None):
                                         (got, hits))
                 return None
             for name, value in env.cur["cfg"]["fixed"]:
+                if isinstance(value, list):
+                    value = tuple(value)
+                if isinstance(value, tuple):
+                    if current_params[name] != value:
+                        env.param_errors.append(
+                            "fixed %s=%r received as %r" % (
+                                name, value, current_params[name]))
+                    continue
                 if np.any(current_params[name] != value):
                     env.param_errors.append("fixed %s=%r received as %r" % (
                         name, value, current_params[name]))
@@ -271,7 +284,7 @@ def make_runner(env, cfg=None):
                                        ids=digits4(ids), sumv=sumv,
                                        nskip=nskip)))
             keep = stop_model(env.cur["cfg"], v, current_rep, sumv,
-                              (rr._value, rr._total))
+                              (rr._value, rr._total), nskip)
             if env.cur["cfg"]["stop"].get("ret") == "npbool":
                 # what 'return errors < max_errors' gives with numpy values
                 return np.bool_(keep)
